@@ -44,7 +44,10 @@ type GroupCase struct {
 	IDs       []string `json:"ids"`             // member ids as hex integers; "" = id the node derives from the key
 	GroupHash string   `json:"group_hash"`      // hex, 32 bytes
 	Order     [][]int  `json:"order,omitempty"` // dealer delivery order per member (nil = natural)
-	Msgs      []string `json:"msgs"`            // hex messages
+	// Rebuild[j] = r in 1..n-1: dealer j's group-init context is rebuilt (restart / cache
+	// eviction mid key exchange) before it serves members r..n-1; 0 = no rebuild; nil = none
+	Rebuild []int    `json:"rebuild,omitempty"`
+	Msgs    []string `json:"msgs"` // hex messages
 }
 
 // SubsetWitness identifies one failing recovery inside a group.
@@ -56,6 +59,60 @@ type SubsetWitness struct {
 	Perm  []int     `json:"perm,omitempty"` // insertion / arrival order (member indexes)
 	Got   string    `json:"got,omitempty"`
 	Want  string    `json:"want,omitempty"`
+}
+
+// mixed reports whether the subset holds members served before and after the rebuild of some dealer.
+func (g *GroupCase) mixed(mask int) bool {
+	for _, rb := range g.Rebuild {
+		if rb >= 1 && rb < g.N {
+			lo := mask & ((1 << uint(rb)) - 1)
+			if lo != 0 && lo != mask {
+				return true
+			}
+		}
+	}
+	return false
+}
+
+// runDKG drives the node's DKG for the group; with a rebuild vector it also runs the
+// uninterrupted exchange and reports whether the rebuilt dealers dealt the same pieces
+// (every member's aggregated signing key is the sum of the pieces it was dealt).
+func runDKG(r *mon.Run, gc *GroupCase, members []*model.SelfMinerInfo) *group_create.VerifDKGResult {
+	gh := common.BytesToHash(mustHex(gc.GroupHash))
+	if gc.Rebuild == nil {
+		return group_create.VerifDKG(members, gh, gc.Order)
+	}
+	res := group_create.VerifDKGWithRebuild(members, gh, gc.Order, gc.Rebuild)
+	plain := group_create.VerifDKG(members, gh, gc.Order)
+	r.Count("groups_with_rebuild", 1)
+	nd := 0
+	for j, rb := range gc.Rebuild {
+		if rb >= 1 && rb < gc.N {
+			nd++
+			r.Distinct("rebuild_split", []byte{byte(gc.N), byte(rb)})
+			r.Distinct("rebuild_dealer_split", []byte{byte(gc.N), byte(j), byte(rb)})
+		}
+	}
+	switch {
+	case nd == 1:
+		r.Count("groups_rebuild_one_dealer", 1)
+	case nd == gc.N:
+		r.Count("groups_rebuild_all_dealers", 1)
+	default:
+		r.Count("groups_rebuild_several_dealers", 1)
+	}
+	if len(plain.SignSKs) == len(res.SignSKs) {
+		for i := range res.SignSKs {
+			r.Count("rebuild_piece_sum_comparisons", 1)
+			if res.SignSKs[i].GetBigInt().Cmp(plain.SignSKs[i].GetBigInt()) != 0 {
+				r.Violation("C13:dkg:rebuilt-dealer-deals-different-pieces"+gc.sigSuffix(),
+					fmt.Sprintf("n=%d kind=%s rebuild=%v: member %d is dealt different pieces when dealer contexts are rebuilt mid-exchange than in the uninterrupted exchange (dealing is not a function of miner secret and group hash)", gc.N, gc.Kind, gc.Rebuild, i),
+					SubsetWitness{Group: *gc, Path: "dkg", Mask: 1 << uint(i)})
+				break
+			}
+		}
+	}
+	return res
 }
 
 func (g *GroupCase) key() string {
@@ -117,8 +174,7 @@ func prepare(r *mon.Run, gc GroupCase) *prepared {
 		for i := 0; i < n; i++ {
 			members[i] = mkMember(gc.Keys[i], gc.IDs[i])
 		}
-		gh := common.BytesToHash(mustHex(gc.GroupHash))
-		res := group_create.VerifDKG(members, gh, gc.Order)
+		res := runDKG(r, &gc, members)
 		r.Count("dkg_runs", 1)
 		r.Count(fmt.Sprintf("groups_n%02d", n), 1)
 		r.Count("groups_kind_"+gc.Kind, 1)
@@ -401,6 +457,9 @@ func runTask(r *mon.Run, t task, orders int, verifyAll bool) {
 			}
 		})
 		r.Count("subsets_enumerated", 1)
+		if gc.mixed(mask) {
+			r.Count("subsets_mixed_rebuild", 1)
+		}
 		if k >= 2 {
 			r.Distinct("subset", []byte(gc.key()), []byte{byte(mask), byte(mask >> 8)})
 		}
@@ -506,6 +565,24 @@ func genGroup(r *mon.Run, n int, kind string, index int, nmsg int) GroupCase {
 		gc.Order = make([][]int, n)
 		for i := range gc.Order {
 			gc.Order[i] = rng.Perm(n)
+		}
+	}
+	if kind != "congruent" && kind != "zeroid" && (index+n)%2 == 1 {
+		rb := r.Rand("rebuild", n, kind, index)
+		gc.Rebuild = make([]int, n)
+		split := func() int { return 1 + rb.Intn(n-1) }
+		switch (index/2 + n + len(kind)) % 3 {
+		case 0: // one dealer
+			gc.Rebuild[rb.Intn(n)] = split()
+		case 1: // several dealers
+			cnt := 2 + rb.Intn(n-1)
+			for _, j := range rb.Perm(n)[:cnt] {
+				gc.Rebuild[j] = split()
+			}
+		default: // every dealer
+			for j := range gc.Rebuild {
+				gc.Rebuild[j] = split()
+			}
 		}
 	}
 	for j := 0; j < nmsg; j++ {
@@ -713,6 +790,7 @@ func main() {
 			"per group and 3 messages (32-byte, short, long) ALL subsets of size >= k: RecoverGroupSignature(threshold k) in 3 insertion orders, RecoverGroupSignature(threshold |S|), " +
 			"model.GroupSignGenerator.AddWitnessSign in a random arrival order; each result byte-compared with Sign(sum of dealer constant terms mod r, msg) and verified under AggregatePubkeys(dealer pubkeys). " +
 			"Non-trivial: subset of size >= k with k >= 2; distinct by (group, subset). Subsets are exhaustive per group; groups and messages are sampled. " +
+			"Dealer restarts: in about half of the groups (VerifDKGWithRebuild) one, several or all dealers rebuild their group-init context at a random split point of the member list and deal again; the same oracles apply (esp. to subsets mixing members served before and after), plus: every member's aggregated key equals the one from the uninterrupted exchange. " +
 			"Production collector: for further DKG groups (fresh/small/georder/topbit/mixed ids) the members' honest ConsensusVerifyMessages of sampled subsets (sizes k, k+1, .., n; all or many of size k) are fed to the real round-1 handler " +
 			"(logical.round1.Update via VerifNewRound1, public shares looked up through GroupCreateProcessor/JoinedGroupStorage) in random arrival orders; after exactly k shares the round must have recovered and " +
 			"Header().Signature / Header().Random must equal Sign(sum, block hash) / Sign(sum, previous beacon); round2.checkSignature must accept",
@@ -720,6 +798,7 @@ func main() {
 			"crypto-random k-subset choice and Go map order inside RecoverGroupSignature are uncontrolled extra diversity",
 			"logical.groupSignGenerator is driven through round1.Update only (honest messages; Byzantine senders are C15's subject)"},
 		MustObserve: []string{"dkg_runs", "share_verifications", "gpk_checks", "recoveries_threshold", "recoveries_random_k_subset", "recoveries_all_shares", "generator_runs", "recovered_verifications", "groups_subsets_exhaustive",
-			"round1_groups", "round1_sequences", "round1_messages", "round1_recoveries_checked"},
+			"round1_groups", "round1_sequences", "round1_messages", "round1_recoveries_checked",
+			"groups_with_rebuild", "subsets_mixed_rebuild", "rebuild_piece_sum_comparisons", "round1_sequences_mixed_rebuild"},
 	})
 }
